@@ -180,7 +180,7 @@ claim('C08',
           A2, A4, IC,
           'A3: sorted() returns a stable permutation ordered by the key (its `reverse` argument is not modelled)',
           'wiring of a group\'s entry side is stable during a neighbour call (rely of GroupPath protects it)',
-          'Group.__init__ (iterates a set) is not under contract',
+          'Group.__init__ (iterates a set), GroupInput.__init__ / GroupOutput.__init__ and the aggregate getters GroupInput.upstream / GroupOutput.downstream are not under contract; GroupPath.__init__ and Group.get_new_group_path are (a new path registers itself last in the group\'s path list)',
       ],
       explanation='offers go only to members of the configured downstream list in candidate order (sorted by waiting-since, None '
                   'last), first True wins; gates refuse without any other call when the predicate is False; blocked inputs refuse; a '
